@@ -178,6 +178,9 @@ def gen_program(rnd, size=None, pseudo=True, data=True, aligns=True, transfers=T
     size = size or rnd.randrange(6, 40)
     nlabels = rnd.randrange(1, 6)
     labels = ['L%d' % i for i in range(nlabels)]
+    if rnd.random() < 0.2:
+        # names spelled with hex digits only are names all the same (a target `dead` is the label, not the number 0xdead)
+        labels = rnd.sample(['dead', 'cafe', 'bad', 'e1', 'a', 'DEAD', 'b0', 'f00d', 'c0de', 'fee', 'abc'], nlabels)
     body = []
     # a pessimistically-far anchor at offset 0: `align 0x200000` there pads nothing in the output but
     # counts 2 MiB while li/call/tail/compression take their decisions, so call/tail FAR0 use the far form
